@@ -14,7 +14,7 @@ class Undecidable(Exception):
 SAFE_CALLS = {'int': int, 'str': str, 'len': len, 'sum': sum, 'divmod': divmod, 'tuple': tuple, 'reversed': reversed,
               'abs': abs, 'min': min, 'max': max, 'range': range, 'enumerate': enumerate, 'list': list, 'bool': bool,
               'sorted': sorted, 'zip': zip}
-SAFE_METHODS = {'index', 'upper', 'lower', 'zfill', 'join', 'find', 'get'}
+SAFE_METHODS = {'index', 'upper', 'lower', 'zfill', 'join', 'find', 'get', 'split', 'strip', 'rstrip', 'lstrip', 'partition', 'rsplit', 'replace'}
 
 
 def ev(node, env, hooks=None):
